@@ -59,12 +59,25 @@ def Thread.start (req : Req) (rnd : Nat → Draws) : Thread :=
 def Thread.result (t : Thread) : Option Res :=
   match t.pc with | .done r => some r | _ => none
 
-/-- `bytesToGolangValue` followed by re-encoding: integers read the first 4 / 8 bytes
-(`binary.LittleEndian.Uint32` panics on a shorter slice). -/
+/-- the length check at the head of `decodeInt32` / `decodeInt64` (regenerated; 0 = none) -/
+def intLenCheck (name : String) : Nat :=
+  ((decodeIntLengthChecks.find? fun p => p.1 == name).map (·.2)).getD 0
+
+/-- `decodeInt32` / `decodeInt64` (`pseudonymization/utils.go`) on a STORED value of any length,
+followed by re-encoding: `if len(data) != K { return 0, err }`, then `binary.LittleEndian.UintNN`, which
+panics on a slice shorter than `width` and ignores what follows the first `width` bytes. -/
+def decodeInt (name : String) (width : Nat) (d : Bytes) : Res :=
+  if intLenCheck name ≠ 0 ∧ d.length ≠ intLenCheck name then .err
+  else if d.length < width then .panic
+  else .ok (d.take width)
+
+/-- `bytesToGolangValue` followed by re-encoding: what the tokenizer makes of the payload of a record it
+read from the token store. Strings, e-mails and byte strings are handed out as stored, whatever their
+length; integers go through `decodeInt32` / `decodeInt64`. -/
 def decodeAs (ty : TokenType) (d : Bytes) : Res :=
   match ty with
-  | .int32 => if d.length < 4 then .panic else .ok (d.take 4)
-  | .int64 => if d.length < 8 then .panic else .ok (d.take 8)
+  | .int32 => decodeInt "decodeInt32" 4 d
+  | .int64 => decodeInt "decodeInt64" 8 d
   | _ => .ok d
 
 /-- payload of a `t.` record: `TokenValue{Value, Type}`. The protobuf framing is abstracted to the
